@@ -8,7 +8,7 @@
 
 #include <memory>
 
-enum Code { BUILD, ATTR, COMMIT, ROLLBACK, CLEAR, ADD_BUFFER, ADD_BUFFER_C, PUSH_BACK, ADD_ITEM, SWAP, MOVE_RT, TAKE_B, RM, PURGE, PURGE_CB, POP_NESTED };
+enum Code { BUILD, ATTR, COMMIT, ROLLBACK, CLEAR, ADD_BUFFER, ADD_BUFFER_C, PUSH_BACK, ADD_ITEM, SWAP, MOVE_RT, TAKE_B, RM, UNRM, PURGE, PURGE_CB, POP_NESTED };
 
 struct Op {
     std::string name, kind;   // kind: coarse class used in class keys and outcome counters
@@ -112,6 +112,8 @@ static void make_alphabet() {
     add_op("rm1", "set_removed", RM, 1, M);
     add_op("rm2", "set_removed", RM, 2, 0);
     add_op("rmlast", "set_removed", RM, -1, 0);
+    add_op("unrm0", "set_removed(false)", UNRM, 0, M);      // a removal mark can be taken back before the purge (seed C04e)
+    add_op("unrmlast", "set_removed(false)", UNRM, -1, 0);
     add_op("purge", "purge", PURGE, 0, R);
     add_op("purge_cb", "purge", PURGE_CB, 0, M);
     add_op("popnest", "get_last_nested", POP_NESTED, 0, Q);
@@ -261,13 +263,13 @@ bool Ex::apply(const Op& op) {
                 MA = MB; MB = MBuf{}; MB.cap = 64; MB.mode = 1; b_touched = true;
                 break;
             }
-            case RM: {
+            case RM: case UNRM: {
                 size_t idx = op.arg < 0 ? (cur_items0 ? cur_items0 - 1 : 0) : static_cast<size_t>(op.arg);
                 if (idx < cur_items0) {
                     size_t off = 0;
                     for (size_t i = 0; i < idx; ++i) off += msize(MA.com[MA.n_nested() + i]);
-                    A.get<osmium::memory::Item>(off).set_removed(true);     // fetched by offset, used immediately
-                    MA.com[MA.n_nested() + idx].removed = true;
+                    A.get<osmium::memory::Item>(off).set_removed(op.code == RM);     // fetched by offset, used immediately
+                    MA.com[MA.n_nested() + idx].removed = op.code == RM;
                 }
                 break;
             }
